@@ -225,7 +225,12 @@ def explore(net, harness, *, extra_vars=(), extra_constraints=(), cube=(), timeb
             res["exhausted"] = True
             break
         if r != z3.sat:
-            res["inconclusive"].append({"reason": "frontier query unknown"})
+            # the SEARCH for the next unexplored class gave up (solver timeout on the accumulated frontier): the
+            # exploration of this task ends here, not exhausted.  No verdict depends on this query - every class
+            # decided so far stands - so it is the same as running out of the time box, and is counted.
+            res["queries"]["frontier_unknown"] = res["queries"].get("frontier_unknown", 0) + 1
+            if start_at is not None and res["classes"] == 0:
+                res["inconclusive"].append({"reason": "frontier query unknown for a pinned representative"})
             break
         m = m0 if m0 is not None else s.model()
         ctx.reset(m)
